@@ -189,8 +189,7 @@ class ModbusTransactionManager(object):
                         full = datagram
                         broadcast = False
                         retries -= 1
-                    addTransaction = partial(self.addTransaction,
-                                             tid=request.transaction_id)
+                    addTransaction = partial(self._addReply, request)
                     self.client.framer.processIncomingPacket(response,
                                                              addTransaction,
                                                              request.unit_id)
@@ -216,6 +215,31 @@ class ModbusTransactionManager(object):
                 _logger.exception(ex)
                 self.client.state = ModbusTransactionState.TRANSACTION_COMPLETE
                 return ex
+
+    def _addReply(self, request, reply):
+        """ Files a decoded reply under the transaction id of the request,
+        provided that it answers this request: it has to carry the function
+        code of the request (or that code with the exception flag set) and,
+        on the socket framing, the transaction id of the request. Anything
+        else (typically the late reply to an earlier transaction that has
+        timed out) is dropped instead of being returned as the answer.
+
+        :param request: The request that is being executed
+        :param reply: A reply decoded from the received data
+        """
+        function_code = request.function_code
+        if reply.function_code not in (function_code, function_code | 0x80):
+            _logger.debug("Dropping reply with function code %d to a request "
+                          "with function code %d" % (reply.function_code,
+                                                     function_code))
+            return
+        if (isinstance(self.client.framer, ModbusSocketFramer) and
+                reply.transaction_id != request.transaction_id):
+            _logger.debug("Dropping reply to transaction %d while running "
+                          "transaction %d" % (reply.transaction_id,
+                                              request.transaction_id))
+            return
+        self.addTransaction(reply, tid=request.transaction_id)
 
     def _transact(self, packet, response_length, full=False, broadcast=False):
         """
